@@ -6,8 +6,8 @@ CONSTANTS
   FixNonce = TRUE
   PairSet <- Pairs2
   LenSet = {1, 2}
-  MaxCountSet = {0, 1, 2}
-  MaxVerifySet = {0, 1, 2}
+  MaxCountSet <- CountsX
+  MaxVerifySet <- VerifiesY
   MaxSends = 3
 INVARIANTS TypeOK Coupled WindowBound AlphabetCovered
 PROPERTIES VerifiesWhenDue RejectsUnlessDue LimitTruthful SendsBounded RefusalsJustified SendResets
